@@ -88,6 +88,10 @@ class C12(Check):
         rng = np.random.default_rng([case["seed"], 12])
         nontrivial = True
         with Scratch("c12") as tmp:
+            if case_bits(case, "patch-like-parent") % 3 == 0:
+                # the cache lives below a directory whose name looks like a patch directory
+                tmp = tmp / ["patch_16", "run_patch_6", "npatch_006"][case_bits(case, "parent-name") % 3] / "caches"
+                tmp.mkdir(parents=True)
             nontrivial = getattr(self, "_" + case["kind"])(case, rng, tmp, bad, counters)
         out.append(result(HELD, cls=case["kind"], counters=counters, nontrivial=bool(nontrivial),
                           sample=dict(case=case, counters=counters)))
